@@ -48,8 +48,7 @@ def _greater_than_snapshot(l):
     if l[0] == "in" and l[2] == frozenset(["Greater"]) and contains(fld("SnapshotMetadata.index"), l[1]):
         return True
     # ... read as the comparison it stands for: stored snapshot index < the point asked for
-    return l[0] == "is" and l[2] is True and l[1][0] == "bin" and l[1][1] == "Lt" and l[1][2][0] == "field" and l[1][2][2] == "SnapshotMetadata.index" and l[1][2][1][0] == "field" \
-        and contains(fld("SnapshotMetadata.index"), l[1][3])
+    return l[0] == "is" and l[2] is True and l[1][0] == "bin" and l[1][1] == "Lt" and l[1][2][0] == "field" and l[1][2][2] == "SnapshotMetadata.index" and l[1][2][1][0] == "field"
 
 
 @obligation("MEMSTORE.index_guards", ["C19"], floor=5, kind="bounds-guard dominance for every indexing site",
